@@ -1,7 +1,9 @@
 package checks
 
 import (
+	"context"
 	"fmt"
+	"github.com/jackc/pgx/v5/pgtype"
 	"math"
 	"strings"
 
@@ -146,7 +148,70 @@ func fmtFor(rfmts []int16, i int) int16 {
 	return rfmts[i]
 }
 
+// c09shout: an int4 codec one connection installs on its own type map (a tenant's output style); values
+// it encodes carry a mark.
+type c09shout struct{ pgtype.Int4Codec }
+
+type c09shoutPlan struct{ inner pgtype.EncodePlan }
+
+func (c c09shout) PlanEncode(m *pgtype.Map, oid uint32, format int16, value any) pgtype.EncodePlan {
+	if inner := c.Int4Codec.PlanEncode(m, oid, format, value); inner != nil {
+		return c09shoutPlan{inner}
+	}
+	return nil
+}
+
+func (p c09shoutPlan) Encode(value any, buf []byte) ([]byte, error) {
+	out, err := p.inner.Encode(value, buf)
+	if err == nil && out != nil {
+		out = append(out, " [per-connection style]"...)
+	}
+	return out, err
+}
+
+// ownTypeMaps: connections of user "styled" register c09shout for int4 on the type map of their own
+// connection (session middleware); every other connection, before and after, gets its integers as written.
+func (ch c09) ownTypeMaps(c *core.Ctx) {
+	env := hs.Start(hs.Parse, wire.SessionMiddleware(func(ctx context.Context) (context.Context, error) {
+		if m := wire.TypeMap(ctx); m != nil && wire.AuthenticatedUsername(ctx) == "styled" {
+			m.RegisterType(&pgtype.Type{Name: "int4", OID: pgtype.Int4OID, Codec: c09shout{}})
+		}
+		return ctx, nil
+	}))
+	defer env.Stop()
+	prog := &hs.Prog{Stmts: []*hs.Stmt{{ID: "own", Cols: wire.Columns{{Name: "n", Oid: oid.T_int4, Width: 4}}, Ops: []hs.Op{{K: "row", Vals: []any{int32(42)}}, {K: "complete", Tag: "SELECT 1"}}}}}
+	for round := 0; round < 12; round++ {
+		for _, user := range []string{"plain", "styled", "plain", "plain"} {
+			cl := hs.NewClient(env.Dial(&hs.Sess{Default: func(string) *hs.Prog { return prog }}))
+			if err := cl.StartupOK(user); err != nil {
+				c.Violate("startup", "startup failed", err.Error(), nil)
+				return
+			}
+			out, _ := cl.Step(pg.Query("own"))
+			cl.Finish()
+			want := "42"
+			if user == "styled" {
+				want += " [per-connection style]"
+			}
+			msgs := mustMsgs(out)
+			c.Count("connections_with_their_own_type_map", 1)
+			c.Eval("own type map "+user, true)
+			if pg.Types(msgs) != "TDCZ" || string(msgs[1].Fields[0]) != want {
+				got := "?"
+				if len(msgs) > 1 && len(msgs[1].Fields) > 0 {
+					got = string(msgs[1].Fields[0])
+				}
+				c.Violate("value", "a connection's values are encoded with a codec another connection installed on its own type map", fmt.Sprintf("round %d user %s: reply %s, field %q want %q", round, user, pg.Types(msgs), got, want), map[string]any{"workload": "per-connection type maps"})
+				return
+			}
+		}
+	}
+}
+
 func (ch c09) Run(c *core.Ctx) {
+	if c.Batch%4 == 1 && c.Begin(80000000) {
+		ch.ownTypeMaps(c)
+	}
 	env := hs.Start(hs.Parse)
 	defer env.Stop()
 	n := 6000
